@@ -132,8 +132,24 @@ async function run_all(c) {
     return {stream: seen, bulk: bulk};
 }
 
+// two readers alive at the same time, their chunks delivered alternately (one chunk per tick each): a reader's outcome must
+// not depend on the other one (state shared between iterators - a decoder, a buffer - shows here)
+function observe_pair(c) {
+    return new Promise((resolve) => {
+        const sa = make_stream(c.pieces_a.map(p => Buffer.from(p)), 'from');
+        const sb = make_stream(c.pieces_b.map(p => Buffer.from(p)), 'from');
+        on_uncaught = (e) => {
+            for (const s of [sa, sb]) { try { s.removeAllListeners('data'); s.removeAllListeners('end'); s.destroy(); } catch (e2) {} }
+            const r = canon_error(e); r[1] = 'uncaught ' + r[1]; resolve([r, r]);
+        };
+        Promise.all([observe_inner(sa, null, c), observe_inner(sb, null, c)]).then((r) => { on_uncaught = null; resolve(r); });
+    });
+}
+
+module.exports.handles_uncaught = true;
 module.exports.run_case = async function (c, repo) {
     load(repo);
+    if (c.kind == 'pair') return await observe_pair(c);
     if (c.kind == 'all') return await run_all(c);
     if (c.kind == 'one') return await observe(make_stream(c.pieces.map(p => Buffer.from(p)), c.mode), null, c);
     if (c.kind == 'bulk') return await observe(null, scratch_file(c.data), c);
